@@ -657,8 +657,59 @@ def storage_fns(const_visit=True):
     return [resize, upd('resize_upd_i64', 'long'), upd('resize_upd_i32', 'int'), visit]
 
 
+UPD_H = 'specs/C08/update.h'
+import os as _os
+CBMC_TIMEOUT_DEFAULT = int(_os.environ.get('NV_CBMC_TIMEOUT', '600'))
+FEATURE_TYPE_ENUM = [('src/dataset.cpp', 'nano::feature_type')]
+
+
+def table_write_hook(P, n):
+    """`table(i, j) = value` on a rank-2 index tensor -> nv_map_set(&table, i, j, value): the write is a call of the ghost-row
+    setter (no pointer into the model is handed out)"""
+    import re
+    from cxx2c import unwrap, strip_cv, qual
+    if n.get('kind') != 'BinaryOperator' or n.get('opcode') != '=':
+        return None
+    lhs = unwrap(n['inner'][0])
+    if lhs.get('kind') != 'CXXOperatorCallExpr' or len(lhs.get('inner', [])) != 4:
+        return None
+    if unwrap(lhs['inner'][0]).get('referencedDecl', {}).get('name') != 'operator()':
+        return None
+    obj = lhs['inner'][1]
+    if not re.search(r'tensor_(t<nano::tensor_vector_storage_t, |vector_storage_t<|base_t<)long, 2|tensor_mem_t<(nano::)?tensor_size_t, 2', strip_cv(qual(obj['type']))):
+        return None
+    P.note('table(i, j) = v -> nv_map_set')
+    return f'nv_map_set({P.addr(obj)}, {P.expr(lhs["inner"][2])}, {P.expr(lhs["inner"][3])}, {P.expr(n["inner"][1])})'
+
+
+def update_fns():
+    """dataset_t::update(): the two passes over the generator list that build the feature / column / generator tables"""
+    gv = r'std::vector<std::unique_ptr<nano::generator_t'
+    types = [(r'__normal_iterator<\s*(const )?std::unique_ptr<nano::generator_t|^' + gv + r'.*>::(const_)?iterator$', 'int64_t'),
+             (r'^nano::rgenerator_t$|^std::unique_ptr<nano::generator_t', 'struct nv_rgen'),
+             (r'^nano::rgenerators_t$|^' + gv, 'struct nv_gens'),
+             (r'^nano::feature_t$', 'struct nv_feature'), (r'^nano::feature_type$', 'int32_t'),
+             (r'^nano::tensor3d_dims_t$|^std::array<long, 3>$|tensor_dims_t<3', 'struct nv_dims3')]
+    t2 = r'nano::tensor_(t<nano::tensor_vector_storage_t, |vector_storage_t<|base_t<)long, 2'
+    calls = [(r'^operator!=\|.*__normal_iterator', '({0} != {1})'), (r'^operator\+\+\|.*__normal_iterator', '(++{0})'),
+             (r'^operator\*\|.*__normal_iterator', '(*nv_gens_at(&self->m_generators, {0}))'),
+             (r'^operator->\|std::unique_ptr<nano::generator_t>::pointer \(\) const', '{&0}'),
+             (r'^size\|nano::tensor_size_t \(const tensor_dims_t<3', 'nv_dims3_size({0})'),
+             (r'^operator\[\]\|.*std::array<long, 3>', 'nv_dims3_get({0}, {1})'),
+             ]
+    members = [(r'^begin\|' + gv, 'nv_gens_begin'), (r'^end\|' + gv, 'nv_gens_end'),
+               (r'^features\|nano::generator_t', 'nv_gen_features'), (r'^feature\|nano::generator_t', 'nv_gen_feature'),
+               (r'^type\|nano::feature_t', 'nv_feat_type'), (r'^classes\|nano::feature_t', 'nv_feat_classes'), (r'^dims\|nano::feature_t', '{*self}.m_dims'),
+               (r'^resize\|' + t2, 'nv_map_resize')]
+    return [Fn('dataset_update', 'src/dataset.cpp', 'update', flt='nano::dataset_t::update', self_struct='struct nv_dataset', types=types,
+               uf_float=False, calls=calls, members=members, hooks=[table_write_hook])]
+
+
 def build(tier):
     targets = []
+    if tier == 'thorough':
+        # dataset_t::update() under contract (5 nested loop contracts, ghost prefix-sum arrays): ~4 minutes of SAT time, hence not in the quick tier
+        targets.append(Target('dataset_update', update_fns, UPD_H, enforce='dataset_update', enums=FEATURE_TYPE_ENUM, cbmc_flags=['--arrays-uf-always'], timeout=max(300, CBMC_TIMEOUT_DEFAULT)))
     setbit, getbit, optional = mask_fns()
     targets.append(Target('mask_setbit', [setbit], MASK_H))
     targets.append(Target('mask_getbit', [getbit], MASK_H))
